@@ -7,6 +7,7 @@ CONSTANTS
   MaxLatch = 0
   FileSteps = FALSE
   QKinds = {"past"}
+  Fix = {}
   KKOps = {"U"}
 VIEW view
 INVARIANTS NoQueryFinishedByTick
